@@ -467,6 +467,8 @@ class Array:
                 return False
             if self._dtype.name != other._dtype.name:
                 return False
+            if self._dtype.scale != other._dtype.scale:
+                return False
             if self.data != other.data:
                 return False
             return True
